@@ -26,6 +26,10 @@ theorem fact_apply_max_guarded : Facts.C12.applyMaxGuarded = true := by decide
 /-- `Resolve`: a second entry for the same input descriptor id is rejected -/
 theorem fact_resolve_rejects_duplicate_ids : Facts.C12.resolveRejectsDuplicateIds = true := by decide
 
+/-- `apply`: the `index == *Max` test runs before a member is taken; `min > max` is rejected -/
+theorem fact_apply_max_test_first : Facts.C12.applyMaxTestBeforeTake = true := by decide
+theorem fact_apply_rejects_min_above_max : Facts.C12.applyRejectsMinAboveMax = true := by decide
+
 /-- the configuration the model is run with is the repaired one -/
 theorem fact_cfg_fixed : Facts.C12.cfg = Cfg.fixed := by decide
 
